@@ -126,6 +126,7 @@ def _fromhex(ctx, args, kwargs):
 
 
 from .values import SMethod as SMethod_
+from .values import SObj as SObj_
 
 def _ghost_get(ctx, args, kwargs):
     return ctx.ghost[args[0]]
@@ -159,7 +160,11 @@ def _seq_snoc(ctx, args, kwargs):
     from .values import SSeq
     s, xo = args
     if not isinstance(s, SSeq):
-        return S.seq_snoc(s, xo)
+        if isinstance(xo, SObj_) and ctx.default_elem is not None:
+            from .seqs import to_sseq
+            s = to_sseq(ctx, s, ctx.default_elem)
+        else:
+            return S.seq_snoc(s, xo)
     r = s.elem.adopt(ctx, xo)
     return SSeq(z3.Concat(s.term, z3.Unit(r)), s.elem, ("snoc", SSeq(s.term, s.elem, s.struct), xo))
 
